@@ -23,14 +23,14 @@ Generator tree (program = one func.func @f, <= 2 arguments; constants are not co
            other predicate / overflow flag / result type / operand order, constants that differ in type or
            sign of zero, opaque test.op producers)
   dead     an unused op next to a returned argument
-  cfg      a fixed family of cf.cond_br / cf.switch / scf.if / scf.for / scf.execute_region shapes around
+  cfg      a fixed family of cf.cond_br / cf.switch / scf.if / scf.for / scf.while / scf.execute_region shapes around
            such ops (constant and variable conditions, identical branches, identical successors, opaque
            test.op effects inside branches)
   top      straight-line arith ops directly in the module body feeding an opaque "test.op" (the only place
            test-specialised-constant-folding looks at); compared through the effect log.
 
 Signatures
-  wrong values      C14|<pass>|<op>[|<predicate>]|<operand pattern>|<wrong-result|wrong-effects|introduces-poison|does-not-verify>
+  wrong values      C14|<pass>|<op>[|<predicate>]|<operand pattern>|<wrong-result|wrong-effects|introduces-poison|does-not-verify|use-not-dominated>
   pass raised       C14|<pass>|raises|<ExceptionClass>|<op>      (<op> = the op the rewrite pattern was applied to)
 For multi-op programs the blamed <op> is found by re-running the pass on every contiguous window of the
 program, smallest first, with the results of earlier ops turned into fresh arguments and -- when that does
@@ -107,8 +107,10 @@ def float_consts(t: str, level: int) -> list[int]:
         return [z, nz, one, fbits(t, -1.0), inf, nan]  # 1 and -1: (1 + x) - 1 exposes any reassociation
     if level == 1:
         return [z, nz, one, fbits(t, -1.0), inf, nan, fbits(t, 0.1)]
-    return [z, nz, one, fbits(t, -1.0), fbits(t, 2.0), inf, inf | fmt.sign_bit, nan, fbits(t, 0.1), fmt.max_finite,
-            fbits(t, 3.0)]
+    big = [fmt.max_finite, fmt.max_finite | fmt.sign_bit]  # overflow of the type in both directions
+    if t == "f32":
+        big += [fbits(t, 3.0e38), fbits(t, -3.0e38)]
+    return [z, nz, one, fbits(t, -1.0), fbits(t, 2.0), inf, inf | fmt.sign_bit, nan, fbits(t, 0.1), fbits(t, 3.0)] + big
 
 
 def consts(t: str, level: int) -> list[int]:
@@ -418,9 +420,43 @@ def traceback_op(e: BaseException) -> str | None:
     return found or inner
 
 
+def undominated_use(mod) -> str | None:
+    """structural check (independent of execution, and of xDSL's verifier which has no dominance check): an
+    operand defined by an op must be defined in a block that encloses the use, before the (ancestor of the)
+    use in that block; uses inside multi-block regions of a definition in another block of the same region
+    are left to the executions.  Returns a description of the first offending use."""
+    for op in mod.walk():
+        for i, v in enumerate(op.operands):
+            d = getattr(v, "op", None)
+            if d is None or d.name == "builtin.module":
+                continue  # block argument
+            dblock = d.parent_block()
+            cur = op
+            hit = None
+            while cur is not None:
+                b = cur.parent_block()
+                if b is dblock:
+                    hit = cur
+                    break
+                if b is not None and dblock is not None and b.parent_region() is dblock.parent_region():
+                    hit = "cfg"
+                    break
+                cur = cur.parent_op()
+            if hit == "cfg":
+                continue
+            if hit is None:
+                return f"operand {i} of {op.name} is defined by {d.name} in a region that does not enclose the use"
+            o = d
+            while o is not None and o is not hit:
+                o = o.next_op
+            if o is None or d is hit:
+                return f"operand {i} of {op.name} is used before its definition by {d.name}"
+    return None
+
+
 def run_pass(P: Prog, pass_name: str, big: bool, st: Stats | None = None) -> tuple[str, dict]:
     """-> (verdict, detail); verdict in unchanged / same / no-defined-input / raises|<Exc> / does-not-verify /
-    wrong-result / wrong-effects / introduces-poison / oracle-unsupported"""
+    wrong-result / wrong-effects / introduces-poison / use-not-dominated / oracle-unsupported"""
     x = X()
     m = P.mod.clone()
     try:
@@ -436,6 +472,9 @@ def run_pass(P: Prog, pass_name: str, big: bool, st: Stats | None = None) -> tup
         m.verify()
     except Exception as e:  # noqa: BLE001
         return "does-not-verify", {"after": after_text, "verify_error": str(e).strip().splitlines()[0][:160]}
+    bad_use = undominated_use(m)
+    if bad_use is not None:
+        return "use-not-dominated", {"after": after_text, "error": bad_use}
     defined, _ = P.before(big)
     if not defined:
         return "no-defined-input", {}
@@ -444,8 +483,11 @@ def run_pass(P: Prog, pass_name: str, big: bool, st: Stats | None = None) -> tup
             st.evaluations += 1
         try:
             ra, la = evaluate(m, P.top, a)
-        except R.RefsemError as e:
+        except R.Unsupported as e:
             return "oracle-unsupported", {"after": after_text, "error": str(e)[:160]}
+        except R.RefsemError as e:
+            # the reference machine met an operand whose definition was never executed on this path
+            return "use-not-dominated", {"after": after_text, "args": list(a), "error": str(e)[:160]}
         if ra is POISON:
             return "introduces-poison", {"after": after_text, "args": list(a), "expected": _res_json(rb), "got": "POISON"}
         if not R.results_equal(rb, ra):
@@ -459,7 +501,7 @@ def _res_json(r):
     return [[t, (hex(v) if isinstance(v, int) else repr(v))] for t, v in r]
 
 
-BAD = ("raises", "does-not-verify", "wrong-result", "wrong-effects", "introduces-poison")
+BAD = ("raises", "does-not-verify", "wrong-result", "wrong-effects", "introduces-poison", "use-not-dominated")
 
 
 def is_bad(verdict: str) -> bool:
@@ -543,7 +585,7 @@ def check_program(st: Stats, rec, big: bool, passes=PASSES, sample: bool = False
         verdict, detail = run_pass(P, p, big, st)
         verdicts[p] = verdict
         st.outcomes[f"{p}:{verdict.split('|')[0]}"] += 1
-        if verdict in ("same", "wrong-result", "wrong-effects", "introduces-poison"):
+        if verdict in ("same", "wrong-result", "wrong-effects", "introduces-poison", "use-not-dominated"):
             changed = True
         if verdict == "oracle-unsupported":
             st.cap(f"refsem cannot execute the output of {p}: {detail.get('error')}")
@@ -565,6 +607,7 @@ def check_program(st: Stats, rec, big: bool, passes=PASSES, sample: bool = False
                 "does-not-verify": f"the output of {p} does not verify: {detail.get('verify_error')}",
                 "wrong-result": f"after {p} the program returns {detail.get('got')} on input {detail.get('args')}, MLIR semantics of the original give {detail.get('expected')}",
                 "wrong-effects": f"after {p} the effect log differs on input {detail.get('args')}",
+                "use-not-dominated": f"after {p} a value is used where its definition does not dominate it: {detail.get('error')}",
                 "introduces-poison": f"after {p} the program is poison / UB on input {detail.get('args')} where the original is defined",
                 }[verdict.split("|")[0]]
         st.violate(sig, what, {"program": P.text, "rec": _rec_json(rec), "pass": p, "verdict": verdict, "big": big, **detail})
@@ -936,6 +979,35 @@ def gen_cfg(t: str):
   ^m(%r: {t}):
     func.return %r : {t}
   }}""", "cf.cond_br", f"same-successor:{cname}-cond:{same}")
+        # the same pure expression in both branches (and before the if): CSE may reuse the outer value, never the
+        # value of the other branch
+        yield _T(cargs, f"""
+  func.func @f({carg}%a: {t}, %b: {t}) -> {t} {{
+{cdef}    %r = scf.if %c -> ({t}) {{
+      %x = arith.muli %a, %b : {t}
+      %x2 = arith.addi %x, %a : {t}
+      scf.yield %x2 : {t}
+    }} else {{
+      %y = arith.muli %a, %b : {t}
+      %y2 = arith.subi %y, %b : {t}
+      scf.yield %y2 : {t}
+    }}
+    func.return %r : {t}
+  }}""", "scf.if", f"same-expression-in-both-branches:{cname}-cond")
+        yield _T(cargs, f"""
+  func.func @f({carg}%a: {t}, %b: {t}) -> ({t}, {t}) {{
+{cdef}    %o = arith.muli %a, %b : {t}
+    %r = scf.if %c -> ({t}) {{
+      %x = arith.muli %a, %b : {t}
+      %x2 = arith.xori %x, %a : {t}
+      scf.yield %x2 : {t}
+    }} else {{
+      %y = arith.muli %a, %b : {t}
+      %y2 = arith.xori %y, %a : {t}
+      scf.yield %y2 : {t}
+    }}
+    func.return %r, %o : {t}, {t}
+  }}""", "scf.if", f"same-expression-outside-and-in-both-branches:{cname}-cond")
         # pass-through blocks
         yield _T(cargs, f"""
   func.func @f({carg}%a: {t}, %b: {t}) -> {t} {{
@@ -1079,6 +1151,48 @@ def gen_cfg(t: str):
   }}""", "cf.switch", f"nested-same-flag:{fname}-flag")
 
 
+def gen_while():
+    """scf.while: the before and the after region compute the same pure expression"""
+    for t in ("i8", "index"):
+        for lim in (0, 1, 3):
+            yield _T([t, t], f"""
+  func.func @f(%a: {t}, %b: {t}) -> {t} {{
+    %lim = arith.constant {lim} : {t}
+    %one = arith.constant 1 : {t}
+    %zero = arith.constant 0 : {t}
+    %r:2 = scf.while (%i = %zero, %acc = %a) : ({t}, {t}) -> ({t}, {t}) {{
+      %e = arith.muli %acc, %b : {t}
+      %c = arith.cmpi ult, %i, %lim : {t}
+      scf.condition(%c) %i, %e : {t}, {t}
+    }} do {{
+    ^bb0(%j: {t}, %v: {t}):
+      %e2 = arith.muli %v, %b : {t}
+      %j1 = arith.addi %j, %one : {t}
+      scf.yield %j1, %e2 : {t}, {t}
+    }}
+    func.return %r#1 : {t}
+  }}""", "scf.while", "same-expression-in-both-regions")
+            yield _T([t, t], f"""
+  func.func @f(%a: {t}, %b: {t}) -> {t} {{
+    %lim = arith.constant {lim} : {t}
+    %one = arith.constant 1 : {t}
+    %zero = arith.constant 0 : {t}
+    %r:2 = scf.while (%i = %zero, %acc = %a) : ({t}, {t}) -> ({t}, {t}) {{
+      %e = arith.muli %a, %b : {t}
+      %s = arith.addi %acc, %e : {t}
+      %c = arith.cmpi ult, %i, %lim : {t}
+      scf.condition(%c) %i, %s : {t}, {t}
+    }} do {{
+    ^bb0(%j: {t}, %v: {t}):
+      %e2 = arith.muli %a, %b : {t}
+      %s2 = arith.xori %v, %e2 : {t}
+      %j1 = arith.addi %j, %one : {t}
+      scf.yield %j1, %s2 : {t}, {t}
+    }}
+    func.return %r#1 : {t}
+  }}""", "scf.while", "same-outer-expression-in-both-regions")
+
+
 def gen_loops():
     """scf.for with constant bounds (trivial-loop removal, constant hoisting)"""
     for t in ("index", "i8"):
@@ -1131,6 +1245,7 @@ def tasks_for(quick: bool) -> list[tuple]:
     tasks.append(("pairs-cross",))
     for t in INT_TYPES:
         tasks.append(("cfg", t))
+    tasks.append(("while",))
     tasks.append(("loops", 0))
     tasks.append(("loops", 1))
     for t in INT_TYPES:
@@ -1163,6 +1278,8 @@ def programs_of(task: tuple, quick: bool):
         return gen_dead(task[1])
     if fam == "cfg":
         return gen_cfg(task[1])
+    if fam == "while":
+        return gen_while()
     if fam == "loops":
         return itertools.islice(gen_loops(), task[1], None, 2)
     if fam == "top":
@@ -1201,7 +1318,7 @@ def run(ctx):
                 "other": ["select", "extsi", "extui", "trunci", "index_cast", "negf", "constant"]},
         "max_arguments": "2 (3 for the one select(arg, arg, arg) shape and for cfg templates with a variable condition)",
         "single_op": "all operand patterns (arg,arg) (x,x) (arg,const) (const,arg) (const,const') (k,k); constants: full boundary set "
-                     "(ints 0 1 -1 2 min max w w-1 2^(w-2); floats +-0 +-1 2 +-inf NaN 0.1 max 3)",
+                     "(ints 0 1 -1 2 min max w w-1 2^(w-2); floats +-0 +-1 2 +-inf NaN 0.1 3 +-max, f32 also +-3.0e38)",
         "chains": ("2-op chains: i8 over " + str(list(IBIN3)) + " x the same, and select / casts / i1 ops after each cmpi predicate; "
                    "f32 over addf subf mulf divf negf x the same, select after each cmpf predicate; constants {0,1,-1} / "
                    "{+0,-0,1,-1,inf,NaN} (select slots {0,-1} / {+0,NaN})" if quick else
